@@ -1,12 +1,12 @@
 /-
   CC.Proofs.Contract — short-circuit contraction (`remove_short_circuit_elements`) preserves
   every solution of the circuit equations, for any number of shorts (chains, stars,
-  parallel shorts, shorts touching the reference node) — including the code's habit of
-  computing the (absorbed, retained) pairs once and applying them sequentially although
-  earlier renamings have made later pairs stale.
-  Key observation: nodes are only ever renamed to labels of the *original* network, and in
-  any solution of the original network the two ends of every short are at the same
-  potential; a renaming `an → rn` with `φ(an) = φ(rn)` preserves the circuit equations.
+  parallel shorts, shorts touching the reference node), and is complete: no non-exempt short
+  is left.  The loop contracts the first pair and renames the remaining pairs along with the
+  branches (`contractAll`).
+  Key observation: in any solution of the original network the two ends of every short are at
+  the same potential; a renaming `an → rn` with `φ(an) = φ(rn)` preserves the circuit
+  equations and keeps the remaining pairs equipotential.
 -/
 import CC.Proofs.SpecLemmas
 import CC.Model.Transform
@@ -119,34 +119,116 @@ theorem step_sound (bs : List (Branch L K)) (z : L) (R : Report L K) (an rn : L)
           rw [this, List.sum_map_add, k1, k2, add_zero]
         · simp only [hna, hnr, if_false]; exact k3
 
-theorem fold_sound (pairs : List (L × L)) (bs : List (Branch L K)) (z : L) (R : Report L K)
+theorem ren_key (an rn : L) (b : Branch L K) : (ren an rn b).key = b.key := by
+  unfold Branch.key; rw [ren_id, ren_ty, ren_e]
+
+theorem orient_pot (z : L) (R : Report L K) (p : L × L) (h : R.pot p.1 = R.pot p.2) :
+    R.pot (orient z p).1 = R.pot (orient z p).2 := by
+  unfold orient; by_cases hz : p.1 = z
+  · simp [hz]; rw [← h, hz]
+  · simp [hz, h]
+
+theorem renPair_pot (R : Report L K) (an rn : L) (hp : R.pot an = R.pot rn) (q : L × L)
+    (h : R.pot q.1 = R.pot q.2) : R.pot (renPair an rn q).1 = R.pot (renPair an rn q).2 := by
+  unfold renPair
+  by_cases h1 : q.1 = an <;> by_cases h2 : q.2 = an <;> simp_all
+
+theorem contractAll_nil (z : L) (bs : List (Branch L K)) : contractAll z [] bs = bs := by
+  rw [contractAll]
+
+theorem contractAll_cons (z : L) (p : L × L) (ps : List (L × L)) (bs : List (Branch L K)) :
+    contractAll z (p :: ps) bs =
+      contractAll z (ps.map (renPair (orient z p).1 (orient z p).2)) (contractStep bs (orient z p).1 (orient z p).2) := by
+  rw [contractAll]
+
+/-- induction principle of the loop: a property of `(pairs, branches)` that survives one step
+(contract the first pair, rename the remaining ones) holds at the end -/
+theorem contractAll_ind (z : L) (Inv : List (L × L) → List (Branch L K) → Prop)
+    (step : ∀ p ps bs, Inv (p :: ps) bs →
+      Inv (ps.map (renPair (orient z p).1 (orient z p).2)) (contractStep bs (orient z p).1 (orient z p).2)) :
+    ∀ (n : Nat) (pairs : List (L × L)) (bs : List (Branch L K)), pairs.length = n → Inv pairs bs →
+      Inv [] (contractAll z pairs bs) := by
+  intro n
+  induction n with
+  | zero =>
+    intro pairs bs hl h
+    have : pairs = [] := List.length_eq_zero_iff.mp hl
+    subst this; rw [contractAll_nil]; exact h
+  | succ n ih =>
+    intro pairs bs hl h
+    cases pairs with
+    | nil => simp at hl
+    | cons p ps =>
+      rw [contractAll_cons]
+      exact ih _ _ (by simpa using hl) (step p ps bs h)
+
+/-- the whole loop preserves the circuit equations: the pairs that remain stay equipotential,
+because a renaming only replaces `an` by `rn` with `R.pot an = R.pot rn` -/
+theorem contractAll_sound (pairs : List (L × L)) (bs : List (Branch L K)) (z : L) (R : Report L K)
     (h : CircuitEqsAll bs z R) (hp : ∀ p ∈ pairs, R.pot p.1 = R.pot p.2) :
-    CircuitEqsAll (pairs.foldl (fun bs p => contractStep bs p.1 p.2) bs) z R := by
-  induction pairs generalizing bs with
-  | nil => exact h
-  | cons p ps ih =>
-    simp only [List.foldl_cons]
-    exact ih _ (step_sound bs z R p.1 p.2 (hp p (List.mem_cons_self ..)) h)
-      (fun q hq => hp q (List.mem_cons_of_mem _ hq))
+    CircuitEqsAll (contractAll z pairs bs) z R := by
+  refine (contractAll_ind z (fun ps bs => CircuitEqsAll bs z R ∧ ∀ p ∈ ps, R.pot p.1 = R.pot p.2) ?_
+    pairs.length pairs bs rfl ⟨h, hp⟩).1
+  rintro p ps bs ⟨hc, hq⟩
+  have h0 := orient_pot z R p (hq p (List.mem_cons_self ..))
+  refine ⟨step_sound bs z R _ _ h0 hc, ?_⟩
+  intro q' hq'
+  obtain ⟨q, hqm, rfl⟩ := List.mem_map.mp hq'
+  exact renPair_pot R _ _ h0 q (hq q (List.mem_cons_of_mem _ hqm))
 
 /-- every branch of the contracted list is a branch of the original list with the same
 identifier, type and record, its terminals moved only within equipotential nodes -/
-theorem fold_survivors (pairs : List (L × L)) (bs : List (Branch L K)) (R : Report L K)
+theorem contractAll_survivors (pairs : List (L × L)) (bs : List (Branch L K)) (z : L) (R : Report L K)
     (hp : ∀ p ∈ pairs, R.pot p.1 = R.pot p.2) :
-    ∀ b' ∈ pairs.foldl (fun bs p => contractStep bs p.1 p.2) bs, ∃ b ∈ bs,
+    ∀ b' ∈ contractAll z pairs bs, ∃ b ∈ bs,
       b'.id = b.id ∧ b'.ty = b.ty ∧ b'.e = b.e ∧ R.pot b'.n1 = R.pot b.n1 ∧ R.pot b'.n2 = R.pot b.n2 := by
-  induction pairs generalizing bs with
-  | nil => intro b' hb'; exact ⟨b', hb', rfl, rfl, rfl, rfl, rfl⟩
-  | cons p ps ih =>
-    intro b' hb'
-    simp only [List.foldl_cons] at hb'
-    obtain ⟨b1, hb1, h1, h2, h3, h4, h5⟩ :=
-      ih (contractStep bs p.1 p.2) (fun q hq => hp q (List.mem_cons_of_mem _ hq)) b' hb'
-    rw [contractStep_eq] at hb1
-    obtain ⟨b, hb, rfl⟩ := List.mem_map.mp (List.mem_filter.mp hb1).1
-    have hpp := pot_ren R p.1 p.2 (hp p (List.mem_cons_self ..)) b
-    exact ⟨b, hb, by rw [h1, ren_id], by rw [h2, ren_ty], by rw [h3, ren_e],
-      by rw [h4, hpp.1], by rw [h5, hpp.2]⟩
+  refine (contractAll_ind z (fun ps bs' => (∀ p ∈ ps, R.pot p.1 = R.pot p.2) ∧ ∀ b' ∈ bs', ∃ b ∈ bs,
+      b'.id = b.id ∧ b'.ty = b.ty ∧ b'.e = b.e ∧ R.pot b'.n1 = R.pot b.n1 ∧ R.pot b'.n2 = R.pot b.n2) ?_
+    pairs.length pairs bs rfl ⟨hp, fun b' hb' => ⟨b', hb', rfl, rfl, rfl, rfl, rfl⟩⟩).2
+  rintro p ps bs1 ⟨hq, hs⟩
+  have h0 := orient_pot z R p (hq p (List.mem_cons_self ..))
+  refine ⟨?_, ?_⟩
+  · intro q' hq'
+    obtain ⟨q, hqm, rfl⟩ := List.mem_map.mp hq'
+    exact renPair_pot R _ _ h0 q (hq q (List.mem_cons_of_mem _ hqm))
+  · intro b' hb'
+    rw [contractStep_eq] at hb'
+    obtain ⟨b1, hb1, rfl⟩ := List.mem_map.mp (List.mem_filter.mp hb').1
+    obtain ⟨b, hb, h1, h2, h3, h4, h5⟩ := hs b1 hb1
+    have hpp := pot_ren R _ _ h0 b1
+    exact ⟨b, hb, by rw [ren_id, h1], by rw [ren_ty, h2], by rw [ren_e, h3],
+      by rw [hpp.1, h4], by rw [hpp.2, h5]⟩
+
+/-- **completeness of the loop**: if every branch with property `P` (of its element: name, type,
+record) has its terminal pair, in one order or the other, in the list of pairs, then no branch with
+property `P` is left at the end — it was contracted into a self-loop and dropped -/
+theorem contractAll_complete (P : ElemKey K → Prop) (pairs : List (L × L)) (bs : List (Branch L K)) (z : L)
+    (hcov : ∀ b ∈ bs, P b.key → (b.n1, b.n2) ∈ pairs ∨ (b.n2, b.n1) ∈ pairs) :
+    ∀ b' ∈ contractAll z pairs bs, ¬ P b'.key := by
+  have := contractAll_ind z (fun ps bs' => ∀ b ∈ bs', P b.key → (b.n1, b.n2) ∈ ps ∨ (b.n2, b.n1) ∈ ps) ?_
+    pairs.length pairs bs rfl hcov
+  · intro b' hb' hP
+    rcases this b' hb' hP with h | h <;> simp at h
+  intro p ps bs1 hc b' hb' hP
+  rw [contractStep_eq] at hb'
+  obtain ⟨hbm, hloop⟩ := List.mem_filter.mp hb'
+  obtain ⟨b, hb, rfl⟩ := List.mem_map.mp hbm
+  rw [ren_key] at hP
+  simp only [ne_eq, decide_eq_true_eq, ren_n1, ren_n2] at hloop
+  have horient : orient z p = p ∨ orient z p = (p.2, p.1) := by
+    unfold orient; by_cases hz : p.1 = z <;> simp [hz]
+  have hmem : ∀ q : L × L, q ∈ ps → renPair (orient z p).1 (orient z p).2 q ∈
+      ps.map (renPair (orient z p).1 (orient z p).2) := fun q hq => List.mem_map.mpr ⟨q, hq, rfl⟩
+  rw [ren_n1, ren_n2]
+  rcases hc b hb hP with h | h
+  · rcases List.mem_cons.mp h with h | h
+    · exfalso; apply hloop
+      rcases horient with ho | ho <;> rw [ho] <;> rw [← h] <;> simp
+    · exact Or.inl (hmem _ h)
+  · rcases List.mem_cons.mp h with h | h
+    · exfalso; apply hloop
+      rcases horient with ho | ho <;> rw [ho] <;> rw [← h] <;> simp
+    · exact Or.inr (hmem _ h)
 
 /-- in a solution of the network the two ends of every contracted short are equipotential -/
 theorem shortPairs_equipotential (N : Net L K) (keep : List (ElemKey K)) (R : Report L K)
